@@ -768,11 +768,12 @@ class State:
                           + (["slq+precond"] if "AddedDiag" in it.name else []))
         self.bcast_cells()
         self.clamp_cells()
-        if not (self.only and (self.only.startswith("C05/bcast/") or self.only.startswith("C05/clamp/"))):
+        self.catrows_cells()
+        if not (self.only and (self.only.startswith("C05/bcast/") or self.only.startswith("C05/clamp/") or self.only.startswith("C05/hist2:"))):
             for it in nest_instances(rng, torch.float64):
                 chk.count("nest_instances")
                 self.instance(it, torch.float64, tuple(it.shape[:-2]), it.shape[-1], force_cfgs=["default", "chol=n", "slq", "slq[chol=n-1]"])
-        if self.only and (self.only.startswith("C05/bcast/") or self.only.startswith("C05/clamp/")):
+        if self.only and (self.only.startswith("C05/bcast/") or self.only.startswith("C05/clamp/") or self.only.startswith("C05/hist2:")):
             return
         self.patched_probe_cells()
         self.history_cells()
@@ -980,6 +981,137 @@ class State:
                                       + ", ".join(f"{k}={float(v.detach()):.10g}" for k, v in got.items()) + f"; fresh object {float(fresh.detach()):.10g}; exact {float(exact):.10g}", payload)
                         continue
                     chk.traces_validated += 1
+
+    # ------------------------------------------------------------------ histories that leave a cached triangular root behind
+    def catrows_cells(self):
+        """HISTORY family: the operator that is queried carries a CACHED root decomposition whose root is triangular, and the Cholesky
+        shortcut of `inv_quad_logdet` (n <= max_cholesky_size, or fast_computations(log_prob=False)) re-uses it instead of factorizing:
+        * `A.cat_rows(B, D)` appending 2 or 3 rows with a cross block of ORDINARY magnitude (integers in [-2, 2]), default generate_roots —
+          the result is a CatLinearOperator with the assembled root `[[E, 0], [B R, G]]` in its cache;
+        * the same after `A.add_low_rank(U)` (the parent of cat_rows then has an updated cached root itself);
+        * a plain operator after `root_decomposition()` or `zero_mean_mvn_samples()` pre-queries.
+        Parents Dense / Kronecker / Toeplitz / AddedDiag, batch () and (2,).  Each query — `logdet()`, `torch.logdet`,
+        `inv_quad_logdet(R, logdet=True)` with both reduce modes, `inv_quad(R)` with both reduce modes — runs on a FRESH replay of the
+        history and is compared with the dense value of the assembled matrix `[[A, Bᵀ], [B, D]]` (float64 `logdet` / `solve`, 1e-8) and with
+        the value of a plain DenseLinearOperator of that matrix; shapes exactly; Lean shape model on the path descriptor of the queried
+        operator (`cat/chol`: the cached-root shortcut is the `chol` path — `CholLinearOperator(root).inv_quad_logdet`)."""
+        from linear_operator.operators import (DenseLinearOperator, DiagLinearOperator, KroneckerProductLinearOperator, ToeplitzLinearOperator,
+                                               TriangularLinearOperator)
+        chk, settings = self.chk, self.settings
+        dt = torch.float64
+        quick = chk.tier == "quick"
+        for parent in ("Dense", "Kronecker", "Toeplitz", "AddedDiag"):
+            for batch in ((), (2,)):
+                for hist in ("cat_rows[2]", "cat_rows[3]", "add_low_rank+cat_rows[2]", "root_decomposition", "zero_mean_mvn_samples"):
+                    for cname in ("default", "log_prob_off"):
+                        base = f"C05/hist2:{parent}/b={'x'.join(map(str, batch)) or '-'}/{hist}/{cname}"
+                        if self.only and not self.only.startswith(base):
+                            continue
+                        crng = random.Random(f"C05:{chk.seed}:{base}")
+                        if parent == "Kronecker":
+                            f1, f2 = catalogue.psd_int(crng, batch, 2, dt), catalogue.psd_int(crng, batch, 3, dt)
+                            A = catalogue.kron(f1, f2)
+                        elif parent == "Toeplitz":
+                            col = torch.cat([catalogue.ri(crng, (*batch, 1), 6, 8, dt), catalogue.ri(crng, (*batch, 3), -1, 1, dt)], -1)
+                            A = catalogue.toeplitz_dense(col)          # strictly diagonally dominant: PD
+                        elif parent == "AddedDiag":
+                            a0, dv = catalogue.psd_int(crng, batch, 4, dt), catalogue.ri(crng, (*batch, 4), 1, 3, dt)
+                            A = a0 + torch.diag_embed(dv)
+                        else:
+                            A = catalogue.psd_int(crng, batch, 4, dt)
+                        n = A.shape[-1]
+                        U = catalogue.ri(crng, (*batch, n, 1), -2, 2, dt, nonzero=True)
+                        O = 3 if hist.endswith("[3]") else 2
+                        B = catalogue.ri(crng, (*batch, O, n), -2, 2, dt)
+                        B[..., 0, 0] = 2.0                           # never an all-zero cross block
+                        S = catalogue.psd_int(crng, batch, O, dt)
+                        Ap = A + U @ U.mT if hist.startswith("add_low_rank") else A
+                        D = B @ torch.linalg.solve(Ap, B.mT) + S      # Schur complement S: the assembled matrix is PD
+                        D = (D + D.mT) / 2
+                        if "cat_rows" in hist:
+                            Cd = torch.cat([torch.cat([Ap, B.mT], -1), torch.cat([B, D], -1)], -2)
+                        else:
+                            Cd = A
+                        N = Cd.shape[-1]
+
+                        def parent_op():
+                            if parent == "Kronecker":
+                                return KroneckerProductLinearOperator(DenseLinearOperator(f1.clone()), DenseLinearOperator(f2.clone()))
+                            if parent == "Toeplitz":
+                                return ToeplitzLinearOperator(col.clone())
+                            if parent == "AddedDiag":
+                                return DenseLinearOperator(a0.clone()) + DiagLinearOperator(dv.clone())
+                            return DenseLinearOperator(A.clone())
+
+                        def replay_history():
+                            op = parent_op()
+                            if hist.startswith("add_low_rank"):
+                                op = op.add_low_rank(U.clone())
+                            if "cat_rows" in hist:
+                                op = op.cat_rows(B.clone(), D.clone())
+                            elif hist == "root_decomposition":
+                                op.root_decomposition()
+                            else:
+                                torch.manual_seed(crng.randrange(2 ** 31))
+                                op.zero_mean_mvn_samples(3)
+                            return op
+
+                        R = catalogue.ri(crng, (*batch, N, 2), dtype=dt)
+                        cols = (R * torch.linalg.solve(Cd, R)).sum(-2)
+                        ldet = torch.logdet(Cd)
+                        queries = [("logdet()", lambda o: o.logdet(), ldet), ("torch.logdet", lambda o: torch.logdet(o), ldet),
+                                   ("iqld/red=T", lambda o: o.inv_quad_logdet(R.clone(), logdet=True, reduce_inv_quad=True), (cols.sum(-1), ldet)),
+                                   ("iqld/red=F", lambda o: o.inv_quad_logdet(R.clone(), logdet=True, reduce_inv_quad=False), (cols, ldet)),
+                                   ("inv_quad/red=T", lambda o: o.inv_quad(R.clone(), reduce_inv_quad=True), cols.sum(-1)),
+                                   ("inv_quad/red=F", lambda o: o.inv_quad(R.clone(), reduce_inv_quad=False), cols)]
+                        if quick:
+                            queries = [queries[0]] + crng.sample(queries[1:], 3)
+                        for qn, q, want in queries:
+                            cell = base + "/" + qn
+                            if self.only and self.only != cell:
+                                continue
+                            payload = {"cell": cell, "seed": chk.seed, "tier": chk.tier}
+                            chk.case(cell + f"|{chk.seed}")
+                            chk.count("cfg:history2")
+                            with ExitStack() as stk:
+                                stk.enter_context(settings.num_trace_samples(3))
+                                stk.enter_context(settings.cg_tolerance(1e-4))
+                                stk.enter_context(settings.max_cg_iterations(200))
+                                try:
+                                    op = replay_history()          # the history runs under the default settings
+                                    if cname == "log_prob_off":
+                                        stk.enter_context(settings.fast_computations(log_prob=False))
+                                        stk.enter_context(settings.max_cholesky_size(2))
+                                    cached = any(k[0] == "root_decomposition" for k in getattr(op, "_memoize_cache", {}))
+                                    if cached and isinstance(op.root_decomposition().root, TriangularLinearOperator):
+                                        chk.count("history2_cached_triangular_root")
+                                    elif cached:
+                                        chk.count("history2_cached_other_root")
+                                    path = path_of(op, settings)
+                                    got = q(op)
+                                    plain = q(DenseLinearOperator(Cd.clone()))
+                                except Exception as e:  # noqa
+                                    chk.violation(cell + "/exception=" + exc_tag(e), f"history {hist} on {parent} raised {type(e).__name__}: {str(e)[:160]}", payload)
+                                    continue
+                            if isinstance(got, tuple):
+                                self.lines.append(f"shape {path} {'.'.join(map(str, batch)) or '-'} mat:2 1 {int(qn.endswith('T'))}")
+                                self.expect.append(("shape", cell, f"{term_desc(got[0])} {term_desc(got[1])}", ("req", True, True)))
+                                pairs = list(zip(got, want, plain, ("inv_quad term", "logdet term")))
+                            else:
+                                pairs = [(got, want, plain, qn)]
+                            bad = None
+                            for g, w, pl_, nm in pairs:
+                                if tuple(g.shape) != tuple(w.shape):
+                                    bad = ("/shape", f"{nm}: shape {tuple(g.shape)} vs documented {tuple(w.shape)}")
+                                elif not close(g.detach(), w, 1e-8) :
+                                    bad = ("/value", f"{nm}: {g.detach().flatten()[:3].tolist()} vs dense {w.flatten()[:3].tolist()} "
+                                           f"(plain DenseLinearOperator of the same matrix: {pl_.detach().flatten()[:3].tolist()})")
+                                if bad:
+                                    break
+                            if bad:
+                                chk.violation(cell + bad[0], f"after {hist} on {parent} batch {batch} ({cname}): " + bad[1], payload)
+                            else:
+                                chk.traces_validated += 1
 
     # ------------------------------------------------------------------ batch-broadcast right-hand sides
     def bcast_cells(self):
@@ -1555,6 +1687,9 @@ def replay(chk, payload):
     chk.tier = p.get("tier", chk.tier)
     if cell.startswith("C05/clamp/"):
         return run(chk, only="/".join(cell.split("/")[:6]))
+    if cell.startswith("C05/hist2:"):
+        parts = cell.split("/")
+        return run(chk, only="/".join(parts[:6] if parts[4] in ("iqld", "inv_quad") else parts[:5]))
     if cell.startswith("C05/bcast/"):
         parts = cell.split("/")
         return run(chk, only="/".join(parts[:9] + (["red=T", "ld=F"] if parts[10:11] == ["inv_quad()"] and parts[9] == "red=T"
